@@ -1,6 +1,7 @@
 (* Proofs about Model/RunEffects.v.  The configuration space is finite (eight flags,
-   seven fail points): the statements are checked on every combination by computation,
-   after `destruct`, and stated for all configurations. *)
+   six fail points in the body of `try`, three in `finally`, or none): the statements are
+   checked on every combination by computation, after `destruct`, and stated for all
+   configurations. *)
 From Coq Require Import ZArith List Bool Lia.
 From CTM Require Import Base.Sx Model.Pool Model.RunEffects Proofs.PoolP.
 Import ListNotations.
@@ -29,13 +30,45 @@ Proof. intros [[] [] [] [] [] [] [] []] [[]|]; vm_compute; reflexivity. Qed.
 Lemma buffer_cleaned_unfold : forall c fail,
   let tr := fst (run_mapping c fail) in
   has_eff 3 tr = true /\ has_eff 10 tr = true /\ before 3 10 tr = true /\
-  (snd (run_mapping c fail) = true -> before 12 10 tr = true /\ before 13 10 tr = true /\ before 10 19 tr = true) /\
+  (body_raised c fail = true -> before 12 10 tr = true /\ before 13 10 tr = true /\ before 10 19 tr = true) /\
   (has_tmp c = true -> before 10 14 tr = true) /\
-  (has_log_path c = true -> before 10 16 tr = true) /\
-  (has_json c = true -> before 10 17 tr = true) /\
-  (has_hdf5 c = true -> before 10 18 tr = true).
+  (has_eff 16 tr = true -> before 10 16 tr = true) /\
+  (has_eff 17 tr = true -> before 10 17 tr = true) /\
+  (has_eff 18 tr = true -> before 10 18 tr = true) /\
+  (has_eff 20 tr = true -> before 10 20 tr = true) /\
+  (* without a failure inside `finally` every requested output is written *)
+  ((forall p, fail = Some p -> in_finally p = false) ->
+   (has_log_path c = true -> has_eff 16 tr = true) /\
+   (has_json c = true -> has_eff 17 tr = true) /\
+   (has_hdf5 c = true -> has_eff 18 tr = true)).
 Proof.
-  intros [[] [] [] [] [] [] [] []] [[]|]; vm_compute; repeat split; intros; try reflexivity; discriminate.
+  intros [[] [] [] [] [] [] [] []] [[]|]; vm_compute; repeat split; intros; try reflexivity; try discriminate;
+    match goal with H : forall p, Some ?q = Some p -> _ |- _ => specialize (H q eq_refl); discriminate H end.
+Qed.
+
+(* a failure inside `finally` (audit 3, item 13): whenever the step at p - the log file, the
+   JSON or the HDF5 write - is enabled and raises, the call raises AFTER the success message
+   was logged and after the CSV, the obsm of the query file and the summary were written; no
+   traceback reaches the log *)
+Lemma finally_failure_after_success : forall c p,
+  fin_enabled c p = true ->
+  finally_failed_trace c (fst (run_mapping c (Some p))) (snd (run_mapping c (Some p))) = true /\
+  prop_trace_ok c (fst (run_mapping c (Some p))) (snd (run_mapping c (Some p))) = false.
+Proof.
+  intros [[] [] [] [] [] [] [] []] []; vm_compute; intros H; try discriminate H; split; reflexivity.
+Qed.
+
+(* the HDF5 write in particular: the JSON with the complete results is on disk by then *)
+Lemma hdf5_failure_unfold : forall c, has_hdf5 c = true ->
+  let tr := fst (run_mapping c (Some PHdf5)) in
+  snd (run_mapping c (Some PHdf5)) = true /\
+  has_eff 11 tr = true /\ has_eff 13 tr = false /\ has_eff 19 tr = false /\ has_eff 18 tr = false /\
+  (has_obsm c = true -> has_eff 8 tr = true) /\ (has_csv c = true -> has_eff 7 tr = true) /\
+  (has_log_path c = true -> has_eff 16 tr = true) /\
+  (has_json c = true -> exists ks, json_keys tr = Some ks /\ has_key KResults ks = true).
+Proof.
+  intros [[] [] [] [] [] [] [] []]; vm_compute; intros H; try discriminate H;
+    repeat split; intros; try reflexivity; try discriminate; eexists; split; reflexivity.
 Qed.
 
 (* C14, mapping: a failing worker (any schedule, any of the two inspectors' worlds) makes the
@@ -65,7 +98,8 @@ Qed.
 
 (* what has content: wherever _run_mapping raises, the trace of the MODEL satisfies the executable
    statement of the property's clauses (the predicate the harness evaluates on the effects observed
-   on the real run_mapping) -- a finite check, 256 configurations x 6 fail points *)
+   on the real run_mapping) -- a finite check, 256 configurations x 6 fail points (at the three
+   fail points inside `finally` _run_mapping has returned: the hypothesis is false there) *)
 Lemma failed_run_has_property : forall c fail,
   snd (inner c fail) = None ->
   prop_trace_ok c (fst (run_mapping c fail)) (snd (run_mapping c fail)) = true.
